@@ -365,7 +365,7 @@ func caseTimeout() time.Duration {
 	if v := os.Getenv("C04_CASE_TIMEOUT"); v != "" {
 		return time.Duration(atoi(v)) * time.Second
 	}
-	return 15 * time.Second
+	return 10 * time.Second
 }
 
 func dash(s string) string {
